@@ -432,6 +432,7 @@ def run_case(ck, cfg, mode, chooser=None, sched_seed=0, stats=None):
                     g.sched.run(until=lambda: M.held(g, collide_key) >= 1 or all(op["box"] for op in ops),
                                 max_steps=300000, horizon=3600.0)
                     if M.held(g, collide_key) >= 1:
+                        out["done_before_competitor"] = list(done_order)
                         cx = g.make_client(k=k, happy=1, n=n, mutable_format=fmt)
                         M.tag_client(g, cx, "X", [None])
                         xn = cx.create_node_from_uri(cap)
@@ -572,6 +573,11 @@ def evaluate(ck, cfg, g, c, cap, mon, recorder, setup_records, ops, done_order, 
         ck.observe("recorder-unavailable")
 
     # ---- sequential reference model (request order)
+    if out.get("competitor") and (out.get("done_before_competitor") or ops[0]["kind"] in MULTI_ENTRY):
+        # the competing client's write did not land in front of the whole burst (operations had already completed, or
+        # the first operation queues its publish late): the reference model does not place it, results are not judged
+        ck.skip("results-not-judged-competitor-landed-mid-burst")
+        return
     if faults:
         ck.skip("results-not-judged-under-server-faults")
         ck.hit("case-with-server-faults")
@@ -796,7 +802,9 @@ def random_cfg(rng):
         cfg["ops"] = ops = (lead,) + tuple(o for o in ops[1:])
     elif rng.random() < .18:
         # the first operation of the burst is a modify / directory edit whose first attempt collides with another client
-        first = "modify" if target == "file" else rng.choice(["set_node", "set_uri", "delete", "rename"])
+        # (single-step operations only: a rename's first serialized step is a read, so the operations queued behind it
+        # would run before the first publish of the burst -- and before the competitor that this publish triggers)
+        first = "modify" if target == "file" else rng.choice(["set_node", "set_uri", "delete"])
         cfg["ops"] = ops = (first,) + tuple(ops[1:])
         cfg["collide"], cfg["how"] = True, "held"
         cfg["k"] = k = rng.choice([1, 1, 2])
